@@ -69,9 +69,9 @@ func opsString(ops []colOp) string {
 
 // bigPool: 40 items in rotating shapes, for histories that grow the collections past the sizes at which an
 // implementation might switch to an index or another algorithm
-func bigPool() []vocab.Item {
-	out := make([]vocab.Item, 0, 40)
-	for i := 0; i < 40; i++ {
+func bigPool(n int) []vocab.Item {
+	out := make([]vocab.Item, 0, n)
+	for i := 0; i < n; i++ {
 		id := vocab.IRI(fmt.Sprintf("https://example.com/big/%d", i))
 		switch i % 5 {
 		case 0:
@@ -90,11 +90,11 @@ func bigPool() []vocab.Item {
 }
 
 // runBigHistory: same oracle as runHistory over the big pool (Contains is probed for a sample of the pool after every step).
-func runBigHistory(c *Ctx, ck colKind, ops []colOp) {
-	pool := bigPool()
+func runBigHistory(c *Ctx, ck colKind, ops []colOp, poolSize int) {
+	pool := bigPool(poolSize)
 	col := ck.New(nil)
 	var model []int
-	label := fmt.Sprintf("%s/big/%d ops", ck.Name, len(ops))
+	label := fmt.Sprintf("%s/big%d/%d ops", ck.Name, poolSize, len(ops))
 	for i, o := range ops {
 		c.Pending(label)
 		bad := false
@@ -269,6 +269,28 @@ func runHistory(c *Ctx, ck colKind, start string, ops []colOp) {
 			if !in {
 				model = append(model, o.Arg)
 			}
+		case 'M':
+			// one variadic call that names a new item twice, with another one in between
+			args := []int{o.Arg, (o.Arg + 1) % poolN, o.Arg}
+			var err error
+			if c.Guard(ck.Name+".Append(many)", func() { err = col.Append(pool[args[0]], pool[args[1]], pool[args[2]]) }) {
+				return
+			}
+			if err != nil {
+				fail(i, "Append returned "+err.Error(), "append-error", map[string]any{})
+				return
+			}
+			for _, a := range args {
+				in := false
+				for _, m := range model {
+					if m == a {
+						in = true
+					}
+				}
+				if !in {
+					model = append(model, a)
+				}
+			}
 		case 'C':
 			// Contains is checked for the whole pool after every step
 		case 'R':
@@ -332,9 +354,31 @@ func init() {
 		}
 		return ops
 	}
+	alphabetM := append([]colOp{}, alphabet...)
+	for a := 0; a < poolN; a++ {
+		alphabetM = append(alphabetM, colOp{'M', a})
+	}
+	nM := len(alphabetM)
+	decodeM := func(idx int) []colOp {
+		l := 1
+		pw := nM
+		for idx >= pw {
+			idx -= pw
+			pw *= nM
+			l++
+		}
+		ops := make([]colOp, l)
+		for i := 0; i < l; i++ {
+			ops[i] = alphabetM[idx%nM]
+			idx /= nM
+		}
+		return ops
+	}
+	growSizes := []int{65, 70, 129, 150, 300}
+	shrinkOrders := []string{"front", "back", "middle-out", "every-third-then-rest"}
 	Register(&Prop{
 		ID:   "C13",
-		Rule: fmt.Sprintf("model: a slice of pool indices with set semantics; pool of %d items with pairwise distinct ids (IRI, object, actor, activity, value and pointer forms); exhaustive layer: all %d histories of length <= %d over {Append, Remove} x pool, each run on a rotating collection kind x start state (empty, pre-filled, slice with spare capacity); after EVERY step Collection() (sequence by id), Count() and Contains(p) for every pool member are compared with the model; random layer: histories of length 6-40 on every kind; big-pool layer: histories of 60-150 operations over a 40-item pool (collections grow to 40 members); distinct = (kind, start, history); non-trivial = history with at least one effective Remove or a repeated Append", poolN, total, L),
+		Rule: fmt.Sprintf("model: a slice of pool indices with set semantics; pool of %d items with pairwise distinct ids (IRI, object, actor, activity, value and pointer forms); exhaustive layer: all %d histories of length <= %d over {Append, Remove} x pool, each run on a rotating collection kind x start state (empty, pre-filled, slice with spare capacity), and all histories of length <= 3 that also use a variadic Append naming a new item twice, on every kind x start; after EVERY step Collection() (sequence by id), Count() and Contains(p) for every pool member are compared with the model; random layer: histories of length 6-40 on every kind; big-pool layer: histories of 60-150 operations over a 40-item pool (collections grow to 40 members); grow-shrink layer: every kind grown to 65/70/129/150/300 members and removed down to nothing in four orders, then grown again; distinct = (kind, start, history); non-trivial = history with at least one effective Remove or a repeated Append", poolN, total, L),
 		Layers: func(tier string) []Layer {
 			return []Layer{
 				{Name: "histories<=4", N: total, Exhaustive: true, Run: func(c *Ctx, idx int) {
@@ -355,12 +399,61 @@ func init() {
 					}
 					runHistory(c, ck, st, ops)
 				}},
-				{Name: "all-kinds<=3", N: (len(alphabet) + len(alphabet)*len(alphabet) + len(alphabet)*len(alphabet)*len(alphabet)) * len(colKinds) * len(starts), Exhaustive: true, Run: func(c *Ctx, idx int) {
+				{Name: "all-kinds<=3", N: (nM + nM*nM + nM*nM*nM) * len(colKinds) * len(starts), Exhaustive: true, Run: func(c *Ctx, idx int) {
 					ck := colKinds[idx%len(colKinds)]
 					st := starts[(idx/len(colKinds))%len(starts)]
-					ops := decode(idx / (len(colKinds) * len(starts)))
+					ops := decodeM(idx / (len(colKinds) * len(starts)))
 					c.Distinct(ck.Name+"/"+st+"/"+opsString(ops), true)
 					runHistory(c, ck, st, ops)
+				}},
+				{Name: "grow-shrink", N: len(colKinds) * len(growSizes) * len(shrinkOrders), Exhaustive: true, Run: func(c *Ctx, idx int) {
+					// grow past the sizes at which slices re-allocate (65, 129, ...) and shrink back to nothing, compared after every step
+					ck := colKinds[idx%len(colKinds)]
+					n := growSizes[(idx/len(colKinds))%len(growSizes)]
+					order := shrinkOrders[idx/(len(colKinds)*len(growSizes))]
+					var ops []colOp
+					for i := 0; i < n; i++ {
+						ops = append(ops, colOp{'A', i})
+					}
+					var rm []int
+					switch order {
+					case "front":
+						for i := 0; i < n; i++ {
+							rm = append(rm, i)
+						}
+					case "back":
+						for i := n - 1; i >= 0; i-- {
+							rm = append(rm, i)
+						}
+					case "middle-out":
+						for d := 0; d <= n/2; d++ {
+							if n/2+d < n {
+								rm = append(rm, n/2+d)
+							}
+							if d > 0 && n/2-d >= 0 {
+								rm = append(rm, n/2-d)
+							}
+						}
+					default:
+						for i := 0; i < n; i += 3 {
+							rm = append(rm, i)
+						}
+						for i := 0; i < n; i++ {
+							if i%3 != 0 {
+								rm = append(rm, i)
+							}
+						}
+					}
+					for _, r := range rm {
+						ops = append(ops, colOp{'R', r})
+					}
+					// and grow again from the shrunk state
+					for i := 0; i < 10; i++ {
+						ops = append(ops, colOp{'A', (i * 7) % n})
+					}
+					c.Distinct(fmt.Sprintf("%s/grow-shrink/%d/%s", ck.Name, n, order), true)
+					c.Count("grow-shrink", 1)
+					runBigHistory(c, ck, ops, n)
 				}},
 				{Name: "big-pool", N: tierN(tier, 1500, 30000), Run: func(c *Ctx, idx int) {
 					ck := colKinds[idx%len(colKinds)]
@@ -370,7 +463,7 @@ func init() {
 						ops[i] = colOp{"AAAR"[c.R.Intn(4)], c.R.Intn(40)}
 					}
 					c.Distinct(ck.Name+"/big/"+opsString(ops), true)
-					runBigHistory(c, ck, ops)
+					runBigHistory(c, ck, ops, 40)
 				}},
 				{Name: "random", N: tierN(tier, 20000, 500000), Run: func(c *Ctx, idx int) {
 					ck := colKinds[c.R.Intn(len(colKinds))]
@@ -378,7 +471,7 @@ func init() {
 					n := 6 + c.R.Intn(35)
 					ops := make([]colOp, n)
 					for i := range ops {
-						ops[i] = colOp{"AARC"[c.R.Intn(4)], c.R.Intn(poolN)}
+						ops[i] = colOp{"AARCM"[c.R.Intn(5)], c.R.Intn(poolN)}
 					}
 					c.Distinct(ck.Name+"/"+st+"/"+opsString(ops), true)
 					if idx%4000 == 0 {
